@@ -451,6 +451,15 @@ void World::on_log(int pri, const std::string &line) {
 	scan_secret("log line", line.data(), line.size());
 }
 
+void World::on_alloc_fail(uint64_t index) {
+	trace.tag("allocfail"); trace.u64(index);
+	fault_turn = (long)res.st.batches; faults_fired++;
+	probe("fault:alloc_failed");
+	if (!started) probe("alloc_failed_during_startup");
+	// the outcome of whatever is being processed now is not predictable: requests outstanding at this moment may stay unanswered (never answered twice)
+	if (mode == "exact") { for (auto &cl : clients) cl.expq.clear(); flush_pending(); mode = "ledger"; }
+}
+
 void World::on_file_op(const char *op, long result) { trace.tag("fs"); trace.tag(op); trace.u64((uint64_t)result); probe(std::string("fs:") + op); }
 
 void World::scan_secret(const std::string &where, const char *p, size_t n) {
